@@ -190,6 +190,15 @@ class Index:
                 self.by_relpath[rel] = m
         for m in self.modules.values():
             self._scan_module(m)
+        self._link()
+
+    def _link(self):
+        self._subclasses = {}
+        for m in self.modules.values():
+            for c in self._all_classes(m):
+                c.bases = []
+                c.base_exprs = []
+                c._mro = None
         for m in self.modules.values():
             for c in self._all_classes(m):
                 self._resolve_bases(c)
@@ -198,6 +207,24 @@ class Index:
                 for b in c.bases:
                     if b is not None:
                         self._subclasses.setdefault(b, []).append(c)
+
+    def apply_overlay(self, overlay: Dict[str, str]):
+        """Replace the source of single modules IN PLACE and re-link the class hierarchy.
+        Only for throw-away indexes (forked self-test workers): avoids re-parsing 255 files."""
+        for rel, src in overlay.items():
+            old = self.by_relpath.get(rel)
+            if old is None:
+                raise AnchorMissing(f"overlay for unknown module {rel}")
+            try:
+                m = Module(old.name, old.path, rel, src)
+            except SyntaxError as e:
+                raise AnalysisError(f"cannot parse overlay {rel}: {e}")
+            self.modules[old.name] = m
+            self.by_relpath[rel] = m
+            self.overlay[rel] = src
+            self._scan_module(m)
+        self.consulted = set()
+        self._link()
 
     def _all_classes(self, m: Module) -> Iterator[ClassInfo]:
         stack = list(m.classes.values())
